@@ -146,7 +146,7 @@ func (cc *CheckCtx) frameObligations() {
 				modifies[f] = true
 			}
 		}
-		var badStore, badGlobal, conc, escape []string
+		var badStore, badGlobal, conc, escape, nondet []string
 		for _, b := range fn.Blocks {
 			for _, ins := range b.Instrs {
 				pos := w.Fset.Position(ins.Pos())
@@ -174,12 +174,70 @@ func (cc *CheckCtx) frameObligations() {
 							escape = append(escape, at+": a reference is stored into "+r.desc)
 						}
 					}
+				case *ssa.Range:
+					if _, isMap := i.X.Type().Underlying().(*types.Map); isMap {
+						nondet = append(nondet, at+": range over a map (iteration order is randomised)")
+					}
 				case *ssa.Go:
 					conc = append(conc, at+": go statement")
 				case *ssa.Send, *ssa.Select, *ssa.MakeChan:
 					conc = append(conc, at+": channel operation")
 				case *ssa.Call:
 					cal := i.Call.StaticCallee()
+					if cal != nil {
+						pp := ""
+						if cal.Pkg != nil {
+							pp = cal.Pkg.Pkg.Path()
+						} else if cal.Object() != nil && cal.Object().Pkg() != nil {
+							pp = cal.Object().Pkg().Path()
+						}
+						switch pp {
+						case "math/rand", "math/rand/v2", "crypto/rand", "time", "os", "runtime", "runtime/debug":
+							nondet = append(nondet, at+": call of "+cal.String()+" (result depends on the environment, not on the arguments)")
+						}
+					}
+					// package state handed to a function outside the four packages (sync/atomic, a
+					// mutex, a map helper, ...) may be written there: only the scratch pool is exempt
+					if cal == nil || cal.Pkg == nil || w.Pkgs[pkgKeyOf(cal)] == nil {
+						name := "a dynamic call"
+						suspect := true
+						args := i.Call.Args
+						if b, isB := i.Call.Value.(*ssa.Builtin); isB {
+							name = "builtin " + b.Name()
+							switch b.Name() {
+							case "copy", "clear", "delete":
+								args = args[:1] // only the destination is written
+							default:
+								suspect = false // len, cap, append (handled as a store root), min, max, print
+							}
+						} else if cal != nil {
+							name = cal.String()
+							pp := ""
+							if cal.Pkg != nil {
+								pp = cal.Pkg.Pkg.Path()
+							} else if cal.Object() != nil && cal.Object().Pkg() != nil {
+								pp = cal.Object().Pkg().Path() // instantiated generics (atomic.Pointer[T])
+							}
+							switch pp {
+							case "sync", "sync/atomic", "reflect", "runtime", "unsafe", "maps", "":
+								suspect = name != "(*sync.Pool).Get" && name != "(*sync.Pool).Put"
+							default:
+								suspect = false // strings, bytes, slices, sort, math, fmt, errors: read their arguments
+							}
+						}
+						if suspect {
+							for _, a := range args {
+								if !isRefType(a.Type()) {
+									continue
+								}
+								for _, r := range rootsOf(a, 0, map[ssa.Value]bool{}) {
+									if r.kind == rootGlobal || r.kind == rootViaGlobal {
+										badGlobal = append(badGlobal, at+": "+r.desc+" is passed to "+name+", which may write it")
+									}
+								}
+							}
+						}
+					}
 					if cal == nil {
 						continue
 					}
@@ -214,6 +272,7 @@ func (cc *CheckCtx) frameObligations() {
 		add(base+"no_write_to_package_state", len(badGlobal) == 0, strings.Join(badGlobal, "; "))
 		add(base+"no_reference_retained", len(escape) == 0, strings.Join(escape, "; "))
 		add(base+"no_concurrency_primitives", len(conc) == 0, strings.Join(conc, "; "))
+		add(base+"result_determined_by_arguments", len(nondet) == 0, strings.Join(nondet, "; "))
 	}
 	// package-level facts
 	for _, pkg := range allPkgs {
